@@ -257,7 +257,20 @@ func (matrix *DenseFloat32Matrix) Tip() {
   matrix.rowMax, matrix.colMax = matrix.colMax, matrix.rowMax
 }
 func (matrix *DenseFloat32Matrix) AsVector() Vector {
-  return DenseFloat32Vector(matrix.values)
+  if matrix.transposed || matrix.rowMax > matrix.rows || matrix.colMax > matrix.cols {
+    // a view does not own a contiguous row-major block: return its
+    // elements (a copy)
+    n, m := matrix.Dims()
+    v := make(DenseFloat32Vector, n*m)
+    for i := 0; i < n; i++ {
+      for j := 0; j < m; j++ {
+        v[i*m + j] = matrix.values[matrix.index(i, j)]
+      }
+    }
+    return v
+  } else {
+    return DenseFloat32Vector(matrix.values)
+  }
 }
 func (matrix *DenseFloat32Matrix) storageLocation() uintptr {
   return uintptr(unsafe.Pointer(&matrix.values[0]))
@@ -349,7 +362,20 @@ func (matrix *DenseFloat32Matrix) IsSymmetric(epsilon float64) bool {
   return true
 }
 func (matrix *DenseFloat32Matrix) AsConstVector() ConstVector {
-  return DenseFloat32Vector(matrix.values)
+  if matrix.transposed || matrix.rowMax > matrix.rows || matrix.colMax > matrix.cols {
+    // a view does not own a contiguous row-major block: return its
+    // elements (a copy)
+    n, m := matrix.Dims()
+    v := make(DenseFloat32Vector, n*m)
+    for i := 0; i < n; i++ {
+      for j := 0; j < m; j++ {
+        v[i*m + j] = matrix.values[matrix.index(i, j)]
+      }
+    }
+    return v
+  } else {
+    return DenseFloat32Vector(matrix.values)
+  }
 }
 /* implement ScalarContainer
  * -------------------------------------------------------------------------- */
